@@ -32,6 +32,7 @@ def cfg(emod, eres, **c):
 def models(tier, seed):
     if tier == "quick":
         return [("2 levels", cfg(37, seed % 37, N0=4, T0=2, MaxLev=2, MaxFine=1)),
+                ("2 levels, two fine boxes (stacked / side by side / overhanging)", cfg(7, seed % 7, N0=3, T0=2, MaxLev=2, MaxFine=2)),
                 ("3 levels", cfg(83, seed % 83, N0=3, T0=2, MaxLev=3, MaxFine=1))]
     return [("2 levels, 2 fine boxes", cfg(13, seed % 13, N0=4, T0=2, MaxLev=2, MaxFine=2)),
             ("3 levels", cfg(7, seed % 7, N0=3, T0=2, MaxLev=3, MaxFine=1))]
@@ -224,7 +225,7 @@ def run(chk, replay):
         scenarios += r.emitted
     if not scenarios:
         raise core.MachineryError("TLC emitted no scenarios")
-    cap = 500 if chk.tier == "quick" else 8000
+    cap = 600 if chk.tier == "quick" else 8000
     chosen = util.select(scenarios, cap, chk.rng)
     perms = [(0, 1, 2), (1, 2, 0), (2, 0, 1), (0, 2, 1), (1, 0, 2), (2, 1, 0)]
     fsets = [["u", "aff"], ["all"], ["cst"], ["aff", "w", "grid_level"]]
@@ -236,7 +237,8 @@ def run(chk, replay):
         v = run_scenario(chk, sc, cfgseed, axes, serial, fields)
         sigs = util.sig_str(sc["sig"], axes, serial)
         s = sc["sig"]
-        triv = s[0] == 1 and s[2] == [["between-centres"]]
+        lv0 = s[2]["0"] if isinstance(s[2], dict) else s[2][0]
+        triv = s[0] == 1 and lv0[0] == ["between-centres"]
         chk.executed(sigs, not triv, sample={"mesh": sc["mesh"], "pos_unit": sc["pos"], "lim": sc["lim"], "axes": axes,
                                              "serial": serial, "fields": fields})
         chk.traces += 1
